@@ -11,5 +11,5 @@ CONSTANTS
   CtrlDelays = {5}
   IndexMode = "pos"
   Record = FALSE
-INVARIANTS ThrAtLeastD Permutation OrderedUnderBound
+INVARIANTS ThrAtLeastD Permutation OrderedUnderBound HeldUntilOld
 CHECK_DEADLOCK FALSE
